@@ -13,10 +13,13 @@ def generic_dispatch(P, gname):
     f = P.functions.get(gname)
     if f is None:
         return None
+    defs = util.single_defs(f)
     for c, ln in ir.all_calls(f['body']):
         callee = ir.top_nocast(c[1])
         if callee[0] == 'arrow':
             base = ir.top_nocast(callee[1])
+            if base[0] == 'local' and base[2] in defs:          # the instance held in a local first
+                base = ir.top_nocast(defs[base[2]])
             if base[0] == 'call' and ir.callee_name(base) in ('method_at_offset', 'type_method_at_offset'):
                 cls = ir.top_nocast(base[2][1])
                 mname = ir.top_nocast(base[2][3])
